@@ -1265,7 +1265,9 @@ class LcGen(GovGen):
             self.observe(x)
             self.observe(d)
             self.idx[(x, d)] = i + 1
-        if r.random() < 0.75:
+        force = getattr(self, "force", {})
+        warm = r.random() < 0.75
+        if force.get("warm", warm):
             # the executor caches a service record only when it saw an event for it in this process: a freeze and an activation of
             # the destination (both approved) put its record into the cache first
             for op in ("FreezeService", "ActivateService"):
@@ -1283,12 +1285,14 @@ class LcGen(GovGen):
             self.ops.append("restart")
             self.tags.add("restart")
             probe(f)
-        if r.random() < 0.5:
+        rename = r.random() < 0.5
+        if force.get("rename", rename):
             # an update that does need a vote (the name changes) and leaves the list of blocked sources as it is: approved or not,
             # the blocked source stays blocked
             self.submit(f"ca{dc[1]}", f"service UpdateService s:{d} s:{name}-v2 s:intro s:1356:{f} s:details s:reason", "service-update", "service", d)
             ref, kind, mod, obj = self.props[-1]
             ballot = r.choice(["approve", "approve", "reject"])
+            ballot = force.get("ballot", ballot)
             self.vote_all(ref, mod, obj, ballot)
             self.observe(d)
             probe(f)
@@ -1317,7 +1321,13 @@ class LcGen(GovGen):
 def gen_c16(rng, n, tier):
     import random as _r
     hs = []
-    for _ in range(n):
+    # every run starts with one history of each scripted scenario, the variants of the permission update spelled out: which
+    # scenarios a run of 60 histories meets must not be left to the draw (a rename that keeps the list of blocked sources, approved,
+    # came up in none of the 184 evaluations of a quick run)
+    forced = [(0.92, {"warm": True, "rename": True, "ballot": "approve"}), (0.92, {"warm": True, "rename": True, "ballot": "reject"}),
+              (0.92, {"warm": False, "rename": True, "ballot": "approve"}), (0.92, {"rename": False}),
+              (0.1, {}), (0.3, {}), (0.5, {}), (0.65, {}), (0.75, {}), (0.85, {}), (0.97, {})]
+    for hi in range(n):
         r = _r.Random(rng.getrandbits(64))
         g = LcGen(r)
         g.tags = {"c16"}
@@ -1326,9 +1336,12 @@ def gen_c16(rng, n, tier):
         for s in SVC:
             g.observe(s)
         k0 = r.random()
-        if r.random() < 0.3:
+        if r.random() < 0.3 and hi >= len(forced):
             g.systematic()
             k0 = 1.0
+        if hi < len(forced):
+            k0, g.force = forced[hi]
+            g.tags.add("forced-scenario")
         if k0 < 0.25:
             for _ in range(r.randint(0, 2)):
                 g.govern()
